@@ -205,3 +205,13 @@ Proof. intro D. simpl. rewrite D. repeat split. Qed.
 Lemma dict_not_followed {V} (fs : list (string * tree V)) (s : string) :
   dictok = false -> child (KS s) (TD fs) = None /\ wf (TD fs) = false.
 Proof. intro D. simpl. rewrite D. split; reflexivity. Qed.
+
+(* the code as it is (Gen.dict_paths_followed regenerated from /repo): the path followers index into dicts *)
+Lemma dict_code : dictok = true.
+Proof. reflexivity. Qed.
+
+Lemma dict_is_attribute_dict {V} (fs : list (string * tree V)) (s : string) (x : tree V) :
+  child (KS s) (TD fs) = child (KS s) (TO fs) /\
+  put (KS s) x (TD fs) = Some (TD (assoc_set s x fs)) /\
+  wf (TD fs) = wf (TO fs).
+Proof. apply dict_followed. exact dict_code. Qed.
